@@ -659,6 +659,14 @@ func (x *Exec) applyContract(fr *Frame, st *State, reach string, con *Contract, 
 	if con.Trusted {
 		x.trustedUsed[key] = true
 	}
+	if con.Opaque {
+		x.assumed["opaque contract assumed at call sites (body not verified): "+key] = true
+	} else if con.NoFrame && len(con.Modifies) > 0 {
+		x.assumed["modifies clause of "+key+" assumed at call sites (noframe: not checked against its body)"] = true
+	}
+	if len(con.CallbackProvides) > 0 && con.Opaque {
+		x.assumed["callback provides clause of "+key+" assumed (opaque)"] = true
+	}
 	pre := st.clone()
 	pnames := paramNamesOf(callee, sig)
 	if callee == nil && recvT == nil && len(con.ParamNames) > 0 {
@@ -827,6 +835,27 @@ func (x *Exec) applyContract(fr *Frame, st *State, reach string, con *Contract, 
 		x.havocEffects(st, x.eng.eff.funcEffects(callee))
 	} else {
 		x.applyMods(st, []modLoc{{heap: "*nonghost", whole: true}})
+	}
+	// a closure handed to a callee under contract that is NOT listed under 'invokes' may be called by it any number of
+	// times: its write effects (including the captured variables of the caller) are havoced; what the callee's
+	// ensures clauses say is assumed afterwards as usual
+	if callee != nil {
+		for pi, a := range args {
+			fv, ok := a.(Sc)
+			if !ok || fv.Fn == nil || pi >= len(callee.Params) {
+				continue
+			}
+			listed := false
+			for _, inv := range con.Invokes {
+				if inv == callee.Params[pi].Name() {
+					listed = true
+				}
+			}
+			if !listed {
+				x.assumed["closure "+funcKey(fv.Fn)+" passed to "+key+" (not under 'invokes'): its inferred effects are havoced at the call"] = true
+				x.havocEffects(st, x.eng.eff.funcEffects(fv.Fn))
+			}
+		}
 	}
 	// higher-order protocol: parameters listed under 'invokes' are called at most once by the callee
 	invokedFlag := map[string]string{}
